@@ -418,23 +418,23 @@ func diffExpl(a, b *search.Explanation, diffs *[]leafDiff) (shape string) {
 
 // stats of one evaluated pair
 type stats struct {
-	searches, withHits     int
-	scoreMode              string // strict | loose | none:<reason>
-	scoresStrict           int    // hits whose scores were compared exactly
-	scoresLooseEqual       int
-	avgdlKnown             int // hits whose score differs through the avgdl leaf alone, merged segment present
-	avgdlMsg               string
-	excludedDisj           int
-	scoreSortSkipped       int
-	storedDocs             int
-	storedSkip             string
-	iceV2Panic             string
-	classes                []string
-	ntSearches             int
-	sampleReq              *Req
-	sampleHits             int
-	segsA, segsB           int
-	pendingA, pendingB     uint64
+	searches, withHits               int
+	scoreMode                        string // strict | loose | none:<reason>
+	scoresStrict                     int    // hits whose scores were compared exactly
+	scoresLooseEqual                 int
+	avgdlKnown                       int // hits whose score differs through the avgdl leaf alone, merged segment present
+	avgdlMsg                         string
+	excludedDisj                     int
+	scoreSortSkipped                 int
+	storedDocs                       int
+	storedSkip                       string
+	iceV2Panic                       string
+	classes                          []string
+	ntSearches                       int
+	sampleReq                        *Req
+	sampleHits                       int
+	segsA, segsB                     int
+	pendingA, pendingB               uint64
 	mergedObservedA, mergedObservedB bool
 }
 
@@ -853,22 +853,34 @@ func disjProbeCase() Case {
 
 // disjDefectPresent runs the canonical member of the class on two identical in-memory builds,
 // one scored, one with score mode none.
+func disjProbe(c *Case) *vlib.Failure {
+	sa, f := buildSide(c, &c.A)
+	if f != nil {
+		return f
+	}
+	defer sa.close()
+	sb, f := buildSide(c, &c.B)
+	if f != nil {
+		return f
+	}
+	defer sb.close()
+	var st stats
+	st.scoreMode = "none"
+	for ri := range c.Reqs {
+		if f := compareReq(c, ri, &c.Reqs[ri], sa, sb, &st); f != nil {
+			if f.Key == "match-set-mismatch" {
+				f.Key = disjKey
+			}
+			return f
+		}
+	}
+	return nil
+}
+
 func disjDefectPresent() bool {
 	disjOnce.Do(func() {
 		c := disjProbeCase()
-		sa, f := buildSide(&c, &c.A)
-		if f != nil {
-			return
-		}
-		defer sa.close()
-		sb, f := buildSide(&c, &c.B)
-		if f != nil {
-			return
-		}
-		defer sb.close()
-		var st stats
-		st.scoreMode = "none"
-		if f := compareReq(&c, 1, &c.Reqs[1], sa, sb, &st); f != nil {
+		if f := disjProbe(&c); f != nil && f.Key == disjKey {
 			disjPresent = true
 			disjDetail = f.Msg
 		}
@@ -881,7 +893,7 @@ func TestC08DisjunctionMinProbe(t *testing.T) {
 		t.Log("score mode none keeps the minimum of an optimised should part on this tree")
 		return
 	}
-	vlib.KnownProbe(t, ev, "pair", disjProbeCase(), vlib.Failf(disjKey, "score mode none with the unadorned disjunction optimisation: %s", disjDetail))
+	vlib.KnownProbe(t, ev, "probe-disj", disjKey, disjProbeCase(), vlib.Failf(disjKey, "score mode none with the unadorned disjunction optimisation: %s", disjDetail))
 }
 
 // ---------------------------------------------------------------------------------------------
@@ -901,14 +913,14 @@ func TestC08MergeFieldLengthProbe(t *testing.T) {
 	var st stats
 	f := vlib.Guard("probe", func() *vlib.Failure { return prop(&c, &st) })
 	if f != nil {
-		vlib.Report(t, ev, "pair", c, f)
+		vlib.Report(t, ev, "probe-merge", c, f)
 		return
 	}
 	if st.avgdlKnown == 0 {
 		t.Log("a merged offline build scores like the unmerged one on this tree")
 		return
 	}
-	vlib.KnownProbe(t, ev, "pair", c, vlib.Failf(mergeKey, "four documents in one segment against the same four merged from one segment each: %s", st.avgdlMsg))
+	vlib.KnownProbe(t, ev, "probe-merge", mergeKey, c, vlib.Failf(mergeKey, "four documents in one segment against the same four merged from one segment each: %s", st.avgdlMsg))
 }
 
 // ---------------------------------------------------------------------------------------------
@@ -1000,20 +1012,32 @@ func TestC08Pairs(t *testing.T) {
 	ev.Assume("builds with merge policy none (MergePlanOptions.MaxSegmentSize=1, MinSegmentsForInMemoryMerge=1<<30) hold one segment per batch with documents: asserted on every such build (key layout-not-enforced)")
 	ev.Assume("numeric range queries use whole-number bounds at least 2 apart or infinite (narrow ranges belong to the known range-enumeration blow-up of C10)")
 	ev.Assume("stored fields of version-2 segments are not read while a writer that may merge is open (third-party race, C15)")
-	vlib.Check(t, 30, 800, func(rt *rapid.T) {
+	vlib.Check(t, 40, 800, func(rt *rapid.T) {
 		c := genCase(rt, 10)
 		runPair(rt, &c)
 	})
 }
 
+func replayPair(raw json.RawMessage) *vlib.Failure {
+	var c Case
+	if f := vlib.Decode(raw, &c); f != nil {
+		return f
+	}
+	var st stats
+	return finish(&st, vlib.Guard("pair", func() *vlib.Failure { return prop(&c, &st) }))
+}
+
 var replayFns = map[string]vlib.ReplayFn{
-	"pair": func(raw json.RawMessage) *vlib.Failure {
+	"pair":        replayPair,
+	"probe-merge": replayPair,
+	"probe-disj": func(raw json.RawMessage) *vlib.Failure {
+		// the probe compares one request directly (the generated pairs set this class aside
+		// while the defect is present)
 		var c Case
 		if f := vlib.Decode(raw, &c); f != nil {
 			return f
 		}
-		var st stats
-		return finish(&st, vlib.Guard("pair", func() *vlib.Failure { return prop(&c, &st) }))
+		return disjProbe(&c)
 	},
 }
 
